@@ -16,6 +16,7 @@ func init() {
 	register(&Prop{ID: "C09", Run: runC09,
 		Technique: "static analysis: constant / value-flow agreement of the tick arithmetic and the cron parser's granularity, dominance guards of start / stop / invoke, enum table of entry kinds, must-pass-through of error isolation and lock release in the directory loaders (go/ssa)",
 		Decided: []string{
+			"the daemon's DAG map is keyed the same way (base name or path) at every write and delete (C09.dag-map-key)",
 			"a tick at t reads entries as Next(t+c) with a constant -60s ≤ c < 0 and invokes an entry only when its Next is not after t, and every entry that is due: besides the due test, the loop bound and nil tests the launch depends on nothing that varies from entry to entry, and every path of a due iteration reaches it; a `break` on the first future entry is preceded by sorting on Next; the next tick is computed from the previous tick (not from the wall clock) as +1 minute truncated to the minute; the cron parser has no seconds field (C09.tick)",
 			"the start guard: not running, and last start truncated to the minute before the scheduled minute (C09.start-guard); stop only when running, restart unconditionally (C09.stop-guard)",
 			"entries built from Schedule / StopSchedule / RestartSchedule carry the matching kind, Invoke maps each kind to the same-named job method, suspended DAGs contribute no entry (C09.entry-table); the suspend flag is looked up with the key it is written with: the file id derived from the definition's Location, never DAG.Name (C09.suspend-key)",
@@ -27,6 +28,7 @@ func init() {
 
 func runC09(e *Env) {
 	c09Tick(e)
+	c09DagMapKey(e)
 	c09StartGuard(e)
 	c09StopGuard(e)
 	c09EntryTable(e)
